@@ -19,7 +19,8 @@ PATTERNS = [
 ]
 
 
-def scan_assumptions():
+def scan_assumptions(only=None):
+    """only: set of paths relative to /verif/contracts whose hits are REPORTED (the allow-list check always covers everything)."""
     trusted = read_json(os.path.join(CONTRACTS, "trusted.json"), {}) or {}
     allow_stub = set(trusted.get("stubs", []))
     allow_spec = set(trusted.get("assume_specification", []))
@@ -42,17 +43,19 @@ def scan_assumptions():
                         m = rx.search(line)
                         if not m or s.startswith("//"):
                             continue
-                        counts[kind] = counts.get(kind, 0) + 1
                         tgt = m.group(1).strip() if m.groups() else ""
+                        reported = only is None or rel in only
+                        if reported:
+                            counts[kind] = counts.get(kind, 0) + 1
                         if kind == "kani::stub" and tgt not in allow_stub:
                             bad.append("%s:%d stub of %s is not in contracts/trusted.json" % (rel, ln, tgt))
                         if kind == "assume_specification" and tgt not in allow_spec:
                             bad.append("%s:%d assume_specification[%s] is not in contracts/trusted.json" % (rel, ln, tgt))
                         if kind in ("external_body", "verifier::external", "admit", "assume") and rel not in allow_ext:
                             bad.append("%s:%d %s outside the allow-listed files" % (rel, ln, kind))
-                        if kind in ("kani::stub", "assume_specification", "external_body", "verifier::external", "admit", "assume", "kani::stub_verified"):
+                        if reported and kind in ("kani::stub", "assume_specification", "external_body", "verifier::external", "admit", "assume", "kani::stub_verified"):
                             items.append("%s:%d %s %s" % (rel, ln, kind, tgt))
     if bad:
         raise Undecided("assumption scan: " + "; ".join(bad[:5]))
-    summary = ["assumption scan of /verif/contracts: " + ", ".join("%s x%d" % kv for kv in sorted(counts.items()))]
+    summary = ["assumption scan of this property's contract files: " + ", ".join("%s x%d" % kv for kv in sorted(counts.items()))]
     return {"items": sorted(set(items)), "summary": summary, "counts": counts}
